@@ -61,20 +61,41 @@ type c15Env struct {
 	c       *Case
 	scratch string
 	root    string
+	outer   string // root of the enclosing outer clone ("" unless the layout is nested)
 	p       *c15Project
 	idx     map[string]int // root-relative path -> file index
 }
 
 func c15Setup(c *Case, p *c15Project) *c15Env {
 	e := &c15Env{c: c, scratch: mkScratch("c15"), p: p, idx: map[string]int{}}
-	e.root = filepath.Join(e.scratch, p.Name)
+	e.root = filepath.Join(e.scratch, filepath.FromSlash(p.relRoot()))
 	files := map[string]string{}
 	for i, f := range p.Files {
 		files[f.Rel] = f.Src
 		e.idx[f.Rel] = i
 	}
 	writeFiles(e.root, files)
-	for _, d := range []string{filepath.Join(e.root, ".git"), filepath.Join(e.root, "src", "pkg"), filepath.Join(e.scratch, "other", "dir"), filepath.Join(e.scratch, "cfg")} {
+	dirs := []string{filepath.Join(e.root, "src", "pkg"), filepath.Join(e.scratch, "other", "dir"), filepath.Join(e.scratch, "cfg")}
+	switch p.Layout {
+	case 0, 3:
+		dirs = append(dirs, filepath.Join(e.root, ".git"))
+	case 1:
+		// linked worktree: .git is a regular file pointing into the main clone's .git directory
+		writeFiles(e.root, map[string]string{".git": "gitdir: /nonexistent/main-clone/.git/worktrees/" + p.Name + "\n"})
+	case 2:
+		// submodule: .git is a regular file pointing into the outer clone's .git/modules
+		writeFiles(e.root, map[string]string{".git": "gitdir: ../../.git/modules/vendor/" + p.Name + "\n"})
+	}
+	if p.nested() {
+		e.outer = filepath.Join(e.scratch, p.OuterName)
+		dirs = append(dirs, filepath.Join(e.outer, ".git", "modules"))
+		of := map[string]string{".github/workflows/outer.yml": "on: push\njobs:\n  outer:\n    runs-on: outer-only-label\n    steps:\n      - uses: actions/checkout@v2\n"}
+		if p.OuterCfg != "" {
+			of[".github/actionlint.yaml"] = p.OuterCfg
+		}
+		writeFiles(e.outer, of)
+	}
+	for _, d := range dirs {
 		if err := os.MkdirAll(d, 0o755); err != nil {
 			fmt.Fprintf(os.Stderr, "scratch mkdir failed: %v\n", err)
 			os.Exit(10)
@@ -94,7 +115,9 @@ func (e *c15Env) anon(s string) string {
 func (e *c15Env) cwd(kind int) string {
 	switch kind {
 	case c15CwdParent:
-		return e.scratch
+		return filepath.Dir(e.root)
+	case c15CwdOuterRoot:
+		return e.outer
 	case c15CwdNested:
 		return filepath.Join(e.root, "src", "pkg")
 	case c15CwdWorkflows:
@@ -349,8 +372,50 @@ func (e *c15Env) run(tag string, f *c15Filter, cf *c15Compiled, inv c15Inv, base
 	c.Count("cli_runs", 1)
 	c.SetAdd("cwd_x_spelling", c15CwdNames[inv.Cwd]+"/"+c15SpNames[inv.Sp])
 
-	want, all, reason := cf.expected(base, order, func(i int) string { return e.p.Files[i].Rel })
+	rootRel := func(i int) string { return e.p.Files[i].Rel }
+	want, all, reason := cf.expected(base, order, rootRel)
 	alt, _, _ := cf.expected(base, order, func(i int) string { return filepath.ToSlash(printed[i]) })
+	// further models, for coverage counters and for naming a disagreement only
+	var altJoinedCfg, altJoinedCLI, altNoRepo, altOuter []c15Diag
+	joinedCfgOK, joinedCLIOK := true, true
+	{
+		j := &c15Compiled{cli: cf.cli, globs: cf.globs}
+		for k, en := range f.Entries {
+			rs := cf.entries[k]
+			if en.Form == 0 && len(en.Pats) >= 2 {
+				r, err := regexp.Compile(strings.Join(en.Pats, "|"))
+				if err != nil {
+					joinedCfgOK = false
+				} else {
+					rs = []*regexp.Regexp{r}
+				}
+			}
+			j.entries = append(j.entries, rs)
+		}
+		altJoinedCfg, _, _ = j.expected(base, order, rootRel)
+		j2 := &c15Compiled{entries: cf.entries, globs: cf.globs, cli: cf.cli}
+		if len(f.CLI) >= 2 {
+			r, err := regexp.Compile(strings.Join(f.CLI, "|"))
+			if err != nil {
+				joinedCLIOK = false
+			} else {
+				j2.cli = []*regexp.Regexp{r}
+			}
+		}
+		altJoinedCLI, _, _ = j2.expected(base, order, rootRel)
+		// the repository is not recognised at all: no configuration (only meaningful when the
+		// configuration lives in the repository, not with -config-file)
+		altNoRepo, _, _ = (&c15Compiled{cli: cf.cli}).expected(base, order, rootRel)
+		if e.p.nested() && !e.p.OuterBroken {
+			o := c15Compile(&c15Filter{CLI: f.CLI, Entries: e.p.OuterEntries})
+			altOuter, _, _ = o.expected(base, order, func(i int) string { return "vendor/" + e.p.Name + "/" + e.p.Files[i].Rel })
+		}
+	}
+	layout := c15LayoutNames[e.p.Layout]
+	c.SetAdd("layout_x_cwd", layout+"/"+c15CwdNames[inv.Cwd])
+	if inv.Sp == c15SpNoArgs {
+		c.SetAdd("layouts_with_no_argument_runs", layout)
+	}
 
 	detail := func(got []c15Diag) map[string]interface{} {
 		files := map[string]string{}
@@ -363,7 +428,7 @@ func (e *c15Env) run(tag string, f *c15Filter, cf *c15Compiled, inv c15Inv, base
 			argsShown[i] = e.anon(a)
 		}
 		return map[string]interface{}{
-			"repository_dir": "<scratch>/" + e.p.Name, "files": files, "config_content": cfgContent, "config_mode": []string{".github/actionlint.yaml", ".github/actionlint.yml", "-config-file <scratch>/cfg/custom-config.yaml"}[f.CfgMode],
+			"repository_dir": "<scratch>/" + e.p.relRoot(), "layout": layout, "outer_clone_config": e.p.OuterCfg, "files": files, "config_content": cfgContent, "config_mode": []string{".github/actionlint.yaml", ".github/actionlint.yml", "-config-file <scratch>/cfg/custom-config.yaml"}[f.CfgMode],
 			"cwd": "<scratch>/" + cwdRel, "args": argsShown, "filter": f,
 			"unfiltered": c15DiagStrings(all), "expected": c15DiagStrings(want), "observed": c15DiagStrings(got),
 			"exit": res.Exit, "stderr": truncate(e.anon(res.Stderr), 2000),
@@ -371,6 +436,10 @@ func (e *c15Env) run(tag string, f *c15Filter, cf *c15Compiled, inv c15Inv, base
 	}
 	c.Logf("--- cwd=%s (%s) spelling=%s filter=%s cli=%q entries=%+v\n    args=%q\n    exit=%d", c15CwdNames[inv.Cwd], cwd, c15SpNames[inv.Sp], f.Kind, f.CLI, f.Entries, args, res.Exit)
 
+	if res.Exit == 3 && e.p.Layout != 0 && strings.Contains(res.Stderr, "no project was found") {
+		c.Violation("C15:repository-marked-by-git-file-or-nested-not-found", fmt.Sprintf("layout %s: run without arguments from %s inside the repository ended with exit status 3: %s", layout, c15CwdNames[inv.Cwd], truncate(e.anon(res.Stderr), 300)), detail(nil))
+		return
+	}
 	if res.Exit != 0 && res.Exit != 1 {
 		c.Violation("C15:unexpected-fatal-or-crash", fmt.Sprintf("valid invocation from cwd %s (%s paths) ended with exit status %d %s: %s", c15CwdNames[inv.Cwd], c15SpNames[inv.Sp], res.Exit, res.Signal, truncate(res.Stderr, 300)), detail(nil))
 		return
@@ -379,6 +448,10 @@ func (e *c15Env) run(tag string, f *c15Filter, cf *c15Compiled, inv c15Inv, base
 	if perr != "" {
 		d := detail(nil)
 		d["stdout"] = truncate(res.Stdout, 4000)
+		if inv.Sp == c15SpNoArgs && strings.Contains(perr, "which is not a linted file") {
+			c.Violation("C15:no-argument-run-lints-files-outside-the-repository-of-the-cwd", "layout "+layout+": run without arguments from "+c15CwdNames[inv.Cwd]+": "+perr, d)
+			return
+		}
 		c.Violation("C15:output-not-understood", perr, d)
 		return
 	}
@@ -412,6 +485,19 @@ func (e *c15Env) run(tag string, f *c15Filter, cf *c15Compiled, inv c15Inv, base
 			c.SetAdd("kinds_filtered", all[i].Kind)
 		}
 	}
+	if !joinedCfgOK || !c15Equal(want, altJoinedCfg) {
+		c.Count("runs_discriminating_config_patterns_one_by_one_vs_joined", 1)
+	}
+	if !joinedCLIOK || !c15Equal(want, altJoinedCLI) {
+		c.Count("runs_discriminating_cli_patterns_one_by_one_vs_joined", 1)
+	}
+	inRepoCfg := f.CfgMode != 2
+	if e.p.Layout != 0 && inRepoCfg && (!c15Equal(want, altNoRepo) || inv.Sp == c15SpNoArgs) {
+		c.Count("runs_discriminating_repository_recognised_"+layout, 1)
+	}
+	if e.p.nested() && inRepoCfg && (e.p.OuterBroken || !c15Equal(want, altOuter)) {
+		c.Count("runs_discriminating_inner_vs_outer_repository_"+layout, 1)
+	}
 	if !c15Equal(want, alt) {
 		c.Count("runs_discriminating_root_relative_vs_printed_path", 1)
 		if inv.Cwd != c15CwdRoot {
@@ -424,6 +510,18 @@ func (e *c15Env) run(tag string, f *c15Filter, cf *c15Compiled, inv c15Inv, base
 	if !c15Equal(got, want) {
 		sig, what := "", ""
 		switch {
+		case e.p.nested() && inRepoCfg && altOuter != nil && c15Equal(got, altOuter):
+			sig = "C15:nested-repository-attributed-to-outer-repository"
+			what = "layout " + layout + ": the output equals what one gets when the configuration of the OUTER clone is applied (globs matched against the path relative to the outer root) instead of the configuration of the repository containing the file"
+		case e.p.Layout != 0 && inRepoCfg && c15Equal(got, altNoRepo):
+			sig = "C15:repository-config-not-applied-" + layout
+			what = "layout " + layout + ": the output equals what one gets when the repository's own .github/actionlint.y(a)ml is not applied at all"
+		case joinedCfgOK && c15Equal(got, altJoinedCfg):
+			sig = "C15:config-ignore-patterns-not-matched-one-by-one"
+			what = "the output equals what one gets when the patterns of an `ignore` list are joined into one alternation (inline flags / empty alternatives of one pattern affect the others) instead of being matched one by one"
+		case joinedCLIOK && c15Equal(got, altJoinedCLI):
+			sig = "C15:cli-ignore-patterns-not-matched-one-by-one"
+			what = "the output equals what one gets when the -ignore patterns are joined into one alternation instead of being matched one by one"
 		case c15Equal(got, alt) && inv.Cwd != c15CwdRoot:
 			sig = "C15:paths-glob-matched-against-cwd-relative-path"
 			what = fmt.Sprintf("run from %s (%s): the output equals what one gets when the `paths` globs are matched against the path relative to the working directory instead of the path relative to the repository root", c15CwdNames[inv.Cwd], c15SpNames[inv.Sp])
@@ -518,7 +616,7 @@ func c15Case(c *Case) {
 	e := c15Setup(c, p)
 	defer e.Close()
 	if c.Verbose {
-		c.Logf("repository %q in %s", p.Name, e.scratch)
+		c.Logf("repository %q at %s (layout %s, outer config %q)", p.Name, e.root, c15LayoutNames[p.Layout], p.OuterCfg)
 		for _, f := range p.Files {
 			c.Logf("=== %s\n%s", f.Rel, f.Src)
 		}
@@ -556,7 +654,8 @@ func c15Case(c *Case) {
 		c.Sample(map[string]interface{}{"files": p.Files, "baseline": all})
 	}
 
-	pairs := c15AllPairs()
+	pairs := c15AllPairs(p.nested())
+	c.Count("projects_layout_"+c15LayoutNames[p.Layout], 1)
 	kinds := []string{"none", "cli", "config", "both", "all", c.R.Pick([]string{"config", "both", "cli", "config"})}
 	for fs, kind := range kinds {
 		f := c15GenFilter(c, p, kind, msgs)
@@ -649,10 +748,11 @@ var c15BadConfigs = []struct{ class, content string }{
 
 func c15FatalCase(c *Case) {
 	p := c15GenProject(c.R)
+	p.Layout, p.OuterName, p.OuterCfg, p.OuterEntries, p.OuterBroken = 0, "", "", nil, false
 	e := c15Setup(c, p)
 	defer e.Close()
 	r := c.R
-	pairs := c15AllPairs()
+	pairs := c15AllPairs(false)
 	for it := 0; it < 12; it++ {
 		var pr [2]int
 		for {
@@ -769,7 +869,7 @@ func c15FatalCase(c *Case) {
 }
 
 func runC15(r *Run) {
-	r.Rule = "scratch repositories (.git marker, 2-7 workflows in .github/workflows and nested sub-directories carrying diagnostics of ~15 kinds with random identifiers, optional base config) linted by the real CLI binary in child processes; per repository one unfiltered baseline and 6 filter sets (none / -ignore / `paths` ignore / both / everything filtered / random) x 8 (cwd, spelling) pairs out of {root, parent, nested, .github/workflows, .github, unrelated} x {relative, ./, absolute, unclean relative, no arguments}, all files / one file / permuted subset, JSON or -oneline output; expected = baseline minus messages matched by Go regexp under globs matched by doublestar against the root-relative path. Patterns: derived from the observed messages (word, quoted token, anchored prefix/suffix/full, alternation, case-insensitive) and static ones matching nothing / everything / kind names / path-like text. Fatal family: missing file, invalid -ignore regexp, invalid regexp / glob / YAML in config, missing -config-file, no repository, unknown or malformed flags. Non-trivial = run in which the filter removes at least one diagnostic, or a fatal scenario."
+	r.Rule = "scratch repositories (.git marker, 2-7 workflows in .github/workflows and nested sub-directories carrying diagnostics of ~15 kinds with random identifiers, optional base config) linted by the real CLI binary in child processes; per repository one unfiltered baseline and 6 filter sets (none / -ignore / `paths` ignore / both / everything filtered / random) x 8 (cwd, spelling) pairs out of {root, parent, nested, .github/workflows, .github, unrelated} x {relative, ./, absolute, unclean relative, no arguments}, all files / one file / permuted subset, JSON or -oneline output; expected = baseline minus messages matched by Go regexp under globs matched by doublestar against the root-relative path. Patterns: derived from the observed messages (word, quoted token, anchored prefix/suffix/full, alternation, case-insensitive) and static ones matching nothing / everything / kind names / path-like text. Lists of interacting patterns (inline flags (?i) (?s) (?U) (?m) in a non-last pattern followed by a pattern matching only under that flag, (?i:...) groups, (?-i), anchors in every pattern, alternations and empty alternatives inside a pattern, empty patterns, equal group names) in -ignore and in config ignore lists; the reference compiles each pattern alone. Repository layouts: .git directory; .git regular FILE (linked worktree); .git file (submodule) or .git directory nested in vendor/ of an outer ordinary clone that has its own different (sometimes broken) configuration, additionally linted from the outer root; the repository of a file is the nearest ancestor with .github/workflows and a .git entry. Fatal family: missing file, invalid -ignore regexp, invalid regexp / glob / YAML in config, missing -config-file, no repository, unknown or malformed flags. Non-trivial = run in which the filter removes at least one diagnostic, or a fatal scenario."
 	r.Assume("diagnostics of one workflow file do not depend on the other files of the run (no local actions / reusable workflows are generated), so the unfiltered list of any file subset is the concatenation of the per-file baselines in command line order")
 	r.Assume("Go regexp and doublestar.Match (the documented matchers) define 'matches'; shellcheck and pyflakes are disabled with -shellcheck= -pyflakes=")
 	r.Assume("which configuration file applies is not examined: -config-file is only used when the repository has no .github/actionlint.y(a)ml; stdin input and several repositories in one run are excluded (C10)")
@@ -791,7 +891,25 @@ func runC15(r *Run) {
 			r.Inconclusive(msg)
 		}
 	}
-	need(r.SetLen("cwd_x_spelling") == len(c15AllPairs()), fmt.Sprintf("only %d of %d (cwd, spelling) pairs were exercised", r.SetLen("cwd_x_spelling"), len(c15AllPairs())))
+	need(r.SetLen("cwd_x_spelling") == len(c15AllPairs(true)), fmt.Sprintf("only %d of %d (cwd, spelling) pairs were exercised", r.SetLen("cwd_x_spelling"), len(c15AllPairs(true))))
+	need(r.Counter("runs_discriminating_config_patterns_one_by_one_vs_joined") > 0 && r.Counter("runs_discriminating_cli_patterns_one_by_one_vs_joined") > 0, "no run in which matching the patterns of a list one by one and joined into one alternation give different results (config and -ignore)")
+	need(r.SetLen("pattern_set_classes") >= 10, fmt.Sprintf("only %d classes of interacting pattern lists generated", r.SetLen("pattern_set_classes")))
+	for li, ln := range c15LayoutNames {
+		need(r.Counter("projects_layout_"+ln) > 0, "no repository with layout "+ln)
+		if li != 0 {
+			need(r.Counter("runs_discriminating_repository_recognised_"+ln) > 0, "layout "+ln+": no run whose result depends on the repository being recognised")
+			need(r.SetHas("layouts_with_no_argument_runs", ln), "layout "+ln+": no run without arguments")
+		}
+		if li >= 2 {
+			need(r.Counter("runs_discriminating_inner_vs_outer_repository_"+ln) > 0, "layout "+ln+": no run in which the inner and the outer configuration give different results")
+		}
+		for cw := 0; cw < c15NCwd; cw++ {
+			if cw == c15CwdOuterRoot && li < 2 {
+				continue
+			}
+			need(r.SetHas("layout_x_cwd", ln+"/"+c15CwdNames[cw]), "layout "+ln+" never linted from cwd "+c15CwdNames[cw])
+		}
+	}
 	need(r.Counter("runs_nothing_filtered") > 0 && r.Counter("runs_partly_filtered") > 0 && r.Counter("runs_everything_filtered") > 0, "not all of nothing / partly / everything filtered were observed")
 	need(r.Counter("dropped_by_cli") > 0 && r.Counter("dropped_by_config") > 0, "a filter mechanism never removed a diagnostic")
 	need(r.Counter("glob_entries_matching_a_file") > 0 && r.Counter("glob_entries_matching_no_file") > 0, "globs matching a file and globs matching no file were not both generated")
